@@ -326,7 +326,7 @@ func suspCases(c *hx.Ctx, r *hx.Rng) {
 			case 1:
 				runes[j] = rune(0xa0 + rr.Intn(0x700))
 			case 2:
-				runes[j] = rune(0x10000 + rr.Intn(0xffff)) // beyond the BMP: the high bits are dropped (recorded finding iso-joliet-nonbmp-name)
+				runes[j] = rune(0x10000 + rr.Intn(0xffff)) // beyond the BMP: cut to 16 bits by the code as found (recorded finding iso-joliet-nonbmp-name), a surrogate pair once repaired; the model follows Generated.Iso.jolietUtf16
 			case 3:
 				runes[j] = rune(0xe000 + rr.Intn(0x1ff0))
 			default:
